@@ -201,6 +201,13 @@ func VerifStringLiteral() {
 	verifnd.Assume(utf8.ValidString(s))
 	q := s[0]
 	verifnd.Assume(verifnd.Or(q == '"', q == '\'', q == '`'))
+	vCheckStringLiteral(s)
+}
+
+// vCheckStringLiteral: the obligations of VerifStringLiteral on one source text.
+func vCheckStringLiteral(s string) {
+	n := len(s)
+	q := s[0]
 
 	var ref []byte
 	var refOK bool
@@ -247,6 +254,26 @@ func VerifStringLiteral() {
 		verifnd.Reach("malformed")
 		verifnd.Assert(!accepted, "malformed-literal-rejected")
 	}
+}
+
+// vQuotedUnits: what a literal's content is assembled from in VerifQuotedTemplate.
+var vQuotedUnits = []string{"a", " ", "\n", "\t", "\\", "\xC3\xA9", "\xEF\xBF\xBD", "\xF0\x9F\x98\x80", "#", "\\n", "\x00"}
+
+// VerifQuotedTemplate: each of the five quoting forms (single, double, back-quoted, triple
+// single, triple double) around a content of 0..K units drawn from vQuotedUnits (letters, blanks,
+// raw line breaks and tabs, a backslash, an escape, NUL, 2-, 3- and 4-byte characters including a
+// well-formed U+FFFD): the same obligations as VerifStringLiteral, for contents longer than its
+// byte bound (a triple-quoted literal needs six bytes of quotes alone).
+func VerifQuotedTemplate() {
+	form := verifnd.Choice(5)
+	k := verifnd.Int(0, verifnd.Param("K", 2))
+	body := ""
+	for i := 0; i < k; i++ {
+		body += vQuotedUnits[verifnd.Choice(len(vQuotedUnits))]
+	}
+	open := []string{"'", "\"", "`", "'''", "\"\"\""}[form]
+	verifnd.Reach([]string{"single", "double", "back-quoted", "triple-single", "triple-double"}[form])
+	vCheckStringLiteral(open + body + open)
 }
 
 // VerifIntLiteral: C07(b) - a decimal or hexadecimal digit string of 1..D symbolic digits
